@@ -125,7 +125,7 @@ class LastN(HoldoutMethod):
         if col is None:
             raise TypeError(f"item list does not have ordering field {self.field}")
         ordered = np.argsort(col)
-        return items[ordered[-self.n :]]
+        return items[ordered[len(ordered) - self.n :]]
 
 
 class LastFrac(HoldoutMethod):
@@ -153,4 +153,4 @@ class LastFrac(HoldoutMethod):
         if col is None:
             raise TypeError(f"item list does not have ordering field {self.field}")
         ordered = np.argsort(col)
-        return items[ordered[-n:]]
+        return items[ordered[len(ordered) - n :]]
